@@ -92,6 +92,7 @@ type Event struct {
 // Sim is one simulated execution.
 type Sim struct {
 	tickLag bool // ticker values suffer drawn delays (SetTickLag)
+	tickNoSkip bool // late tickers do not skip missed periods (SetTickNoSkip)
 	mu           sync.Mutex
 	cfg          Config
 	tasks        []*Task
@@ -711,7 +712,7 @@ func Quiesce(limit time.Duration) {
 	t.state = SimBlocked
 	t.quiesce = true
 	if limit < 0 {
-		t.qlimit = 1 << 62
+		t.qlimit = 1<<63 - 1
 	} else {
 		t.qlimit = s.clock.now + limit
 	}
